@@ -34,6 +34,12 @@ func genErrors(r *rand.Rand, id string) *Case {
 		if r.Intn(8) == 0 {
 			depth = 9 + r.Intn(8)
 		}
+		if r.Intn(5) == 0 {
+			// a statement whose Row fails while a value is being encoded (the DataRow is abandoned) and which
+			// then returns a decorated error: the error must arrive in its own, intact ErrorResponse
+			in = append(in, msgQuery("t,i//r:t"+hxs("v")+",x;r:x,i1/E"+genErrSpec(r, depth))...)
+			continue
+		}
 		in = append(in, msgQuery("!"+genErrSpec(r, depth))...)
 	}
 	c.In = in
@@ -90,6 +96,11 @@ func genParams(r *rand.Rand, id string) *Case {
 		for i := 0; i < r.Intn(9); i++ {
 			q += "?,"
 		}
+	}
+	if r.Intn(250) == 0 {
+		// more than 65535 markers, the highest position first appears behind the 65535th
+		k := []int{65534, 65535, 65536}[r.Intn(3)]
+		q = strings.Repeat("$1 ", k) + pick(r, []string{"$2", "$3", "?"})
 	}
 	c.In = []byte(q)
 	return c
